@@ -183,7 +183,13 @@ class ProducerWorld(ClientWorld):
 
     def app_guard(self, op):
         if op[0] == "wait":
-            # proceed once virtual time has passed the mark
+            # proceed once virtual time has passed the mark; a harness timer makes sure time can get there
+            if getattr(self, "_wait_armed", None) != self.script_pos and self.clock.seconds() < op[1]:
+                self._wait_armed = self.script_pos
+
+                def harness_wait():
+                    pass
+                self.clock.callLater(op[1] - self.clock.seconds(), harness_wait)
             return self.clock.seconds() >= op[1]
         return True
 
@@ -248,8 +254,15 @@ class ProducerWorld(ClientWorld):
             if name.startswith("Deferred.callback"):
                 self.retry_delays.append((now, delay, self.step))
         if not label.startswith("app"):
-            if label.split(":")[0] in ("refuse", "drop", "silent", "bclose") or "err=" in label:
+            if label.split(":")[0] in ("refuse", "drop", "silent", "bclose", "cluster", "hang") or "err=" in label:
                 self.reacted = True
+                injected = True
+                if label.startswith("refuse:"):
+                    a = self.net.attempts[int(label.split(":")[1])]
+                    injected = self.cluster.listening(a.host, a.port)  # nobody listens there: not a fault of ours
+                if injected:
+                    self.last_fault_step = self.step
+                    self.last_fault_time = self.clock.seconds()
         self.check_step(label)
         self.step += 1
 
@@ -267,6 +280,15 @@ class ProducerWorld(ClientWorld):
             return
         res = s.result
         if isinstance(res, Failure):
+            # a retriable failure may only be reported once the configured attempts have been used
+            from afkak.common import KafkaError
+            from twisted.internet.defer import CancelledError
+            if (res.check(KafkaError) and not res.check(CancelledError) and s.call_steps and not s.cancelled and
+                    self.stop_called_step is None and getattr(self, "client_closed_step", None) is None and
+                    len(s.call_steps) < self.max_attempts and not self.lookup_trouble()):
+                self.viol("retry-budget", "send-failed-before-retries-ran-out:%s" % res.type.__name__,
+                          "send %d failed with %s after %d attempt(s), max_req_attempts=%d" % (
+                              s.i, res.type.__name__, len(s.call_steps), self.max_attempts))
             return
         # success
         if isinstance(res, BaseException):
@@ -300,6 +322,18 @@ class ProducerWorld(ClientWorld):
                       "send %d succeeded with %r but the leader never acknowledged a request holding exactly its "
                       "messages at that partition/offset (applied: %r)" % (
                           s.i, res, [(a[2], a[3], a[4], len(a[5])) for a in self.cluster.produce_applied]))
+
+    def lookup_trouble(self):
+        """A partition lookup had to be retried in this run (the producer charges those retries to the same
+        per-batch attempt budget as produce attempts, so the produce attempts alone do not show the budget used)."""
+        for r in self.cluster.journal:
+            if r.parsed and r.parsed["api_key"] == rk.METADATA:
+                if not r.answered or r.injected or r.answer is None:
+                    return True
+                if any(t["error"] for t in r.answer["topics"]) or any(
+                        p_["error"] for t in r.answer["topics"] for p_ in t["partitions"]):
+                    return True
+        return False
 
     # ------------------------------------------------------------------ the producer -> client seam
     def note_call(self, payloads):
@@ -473,6 +507,18 @@ class ProducerWorld(ClientWorld):
                                                     not pc.get("batch_send") or over):
                 self.viol("exactly-once", "send-never-resolves%s" % ("-horizon" if horizon else ""),
                           "send %d (%s) never resolved (schedule %r)" % (s.i, s.topic, self.trace[-12:]))
+        if self.PROP == "C08":
+            # self-heal: a send issued well after the last fault is acknowledged (one stale attempt, a refresh, done)
+            from twisted.python.failure import Failure
+            lf = getattr(self, "last_fault_time", None)
+            for s in self.sends:
+                if s.d is None or s.cancelled or self.stop_called_step is not None:
+                    continue
+                if (lf is None or s.t_send >= lf + 20.0) and s.fired and isinstance(s.result, Failure) and \
+                        not self.cluster.modes and self.max_attempts >= 3:
+                    self.viol("self-heal", "send-after-faults-ceased-fails:%s" % s.result.type.__name__,
+                              "send %d, issued at t=%.1f (last fault at t=%s), failed with %s although the cluster "
+                              "has been healthy since" % (s.i, s.t_send, lf, s.result.type.__name__))
         if self.PROP == "C09":
             # log order: first occurrences per partition follow send order
             for tp, log in self.cluster.logs.items():
